@@ -2222,8 +2222,11 @@ class CIMInstanceName(_CIMComparisonMixin, SlottedPickleMixin):
                 ret.append(str(value))
             elif isinstance(value, CIMInstanceName):
                 # reference
+                # The 'cimobject' format omits the host of the path itself,
+                # but a referenced path is a key value and stays complete.
+                ref_format = 'standard' if format == 'cimobject' else format
                 ret.append('"')
-                ret.append(value.to_wbem_uri(format=format).
+                ret.append(value.to_wbem_uri(format=ref_format).
                            replace('\\', '\\\\').
                            replace('"', '\\"'))
                 ret.append('"')
